@@ -175,7 +175,31 @@ def r08_2(prog, rep, sup):
             )  # fmt: skip
 
 
+def r08_6(prog, rep):
+    """isoptionaltype must look for the None member among *all* members."""
+    f = prog.function(f"{C.INSP}.isoptionaltype")
+    obj = ("param", f.params[0])
+    ok = False
+    fixed_index = False
+    for p, r in P.returns(P.paths_of(prog, f)):
+        for s in T.walk(r):
+            if s[0] == "cmp" and s[1] in ("in", "is", "==") and (T.contains(s[3], lambda x: x == ("const", None)) or T.contains(s[3], lambda x: T.is_call_to(x, "builtins.type"))):
+                subj = s[2]
+                if subj[0] == "elem" and T.contains(subj[1], lambda x: x == ("attr", obj, "__args__") or (T.is_call_to(x, "builtins.getattr") and x[2][:2] == (obj, ("const", "__args__"))) or (T.is_call_to(x, "typing.get_args", f"{C.INSP}.args") and x[2][:1] == (obj,))):
+                    ok = True
+                if subj[0] == "sub" and subj[2][0] == "const":
+                    fixed_index = True
+    rep.check(ok and not fixed_index, "R08.6", f.qualname, f.loc, "the None member is searched among all union members", "isoptionaltype looks for None at a fixed position only: a union with None elsewhere is not treated as optional (Union[str, None, int] turns None into 'None')", detail="all-members")
+    g = prog.function(f"{C.INSP}.isnonetype")
+    okn = False
+    for p, r in P.returns(P.paths_of(prog, g)):
+        if r[0] == "cmp" and r[1] == "in" and r[2] == ("param", g.params[0]) and r[3][0] in ("tuple", "set") and any(x == ("const", None) for x in r[3][1]) and any(T.is_call_to(x, "builtins.type") or T.refname(x) == "types.NoneType" for x in r[3][1]):
+            okn = True
+    rep.check(okn, "R08.6", g.qualname, g.loc, "isnonetype accepts both None and NoneType", "isnonetype no longer recognises both spellings of the None member", detail="nonetype")
+
+
 def run(prog: Program, rep: Report, tier: str):
+    rep.rule("R08.6", "optional detection examines every member", floor=2)
     rep.rule("R08.1", "member stack keeps declared order (identity / stable none-first)", floor=2)
     rep.rule("R08.2", "suppress tuple covers every member family's may-raise set", floor=30)
     rep.rule("R08.3", "None fast path / None member first", floor=2)
@@ -208,6 +232,7 @@ def run(prog: Program, rep: Report, tier: str):
                         inside = True
         rep.check(inside and len(ss) == 1, "R08.4", c.qualname, f.loc, "the member call runs inside one contextlib.suppress(...)", "the member call is not wrapped by a single contextlib.suppress", detail="suppress-wrap")
         sups[d] = set(ss[0]) if ss else set()
+    r08_6(prog, rep)
     if len(sups) == 2:
         rep.check(sups["marshal"] == sups["unmarshal"], "R08.5", "union routines", "", f"both suppress {sorted(x.rsplit('.', 1)[-1] for x in sups['marshal'])}", f"marshal suppresses {sorted(sups['marshal'])}, unmarshal {sorted(sups['unmarshal'])}")
         r08_2(prog, rep, sups["unmarshal"])
